@@ -545,6 +545,17 @@ def minimize_subcircuits(
                 node_states[new_output] = _NodeState.REMOVED
             continue
 
+        # Only the gates between the inputs and the non-trivial outputs are going to
+        # be replaced (`subcircuit.size` counts the gates of all outputs), and the
+        # synthesised subcircuit always has exactly as many gates as requested, so
+        # the budget is the number of gates that are actually removed minus one.
+        size = sum(
+            1
+            for gate in filtered_outputs_lst
+            + _get_internal_gates(circuit, inputs, filtered_outputs_lst)
+            if circuit.get_gate(gate).gate_type.name != 'NOT'
+        )
+
         outputs_tt: RawTruthTableModel = [
             row
             for i, row in enumerate(subcircuit.evaluate_truth_table_with_dont_cares())
